@@ -1,9 +1,11 @@
 package rules
 
 import (
+	"fmt"
 	"go/constant"
 	"go/token"
 	"go/types"
+	"strings"
 
 	"golang.org/x/tools/go/ssa"
 
@@ -80,7 +82,7 @@ func c17Extract(call ssa.Value, idx int) ssa.Value {
 
 func c17Go(m *c17Model) {
 	p := m.p
-	ru := m.r.Rule("C17.go", "cli.Main exits with 0 for a nil error, with ExitCode() of an interp.Exiter and with 1 otherwise; Interp.Main evaluates _main, returns the *gojq.HaltError it receives (value written to stderr), returns other errors, and returns nil only when the iterator is exhausted; *gojq.HaltError is an Exiter", 16)
+	ru := m.r.Rule("C17.go", "cli.Main exits with 0 for a nil error, with ExitCode() of an interp.Exiter and with 1 otherwise; Interp.Main evaluates _main, returns the *gojq.HaltError it receives (value written to stderr), returns other errors, and returns nil only when the iterator is exhausted; *gojq.HaltError is an Exiter; halt value printing: nil nothing, Go string raw, otherwise JSON plus newline", 22)
 
 	exiter := p.NamedType("pkg/interp", "Exiter")
 	mainM := p.Fn("(*pkg/interp.Interp).Main")
@@ -304,4 +306,166 @@ func c17Go(m *c17Model) {
 		}
 	}
 	ru.Check(toStderr >= 1, "Interp.Main:halt-stderr", pos, "halt value written to stderr", "the value of a halt_error (error: ... messages) is no longer written to stderr")
+	c17HaltPrint(ru, p)
+}
+
+// ---------------------------------------------------------------------------
+// halt value printing (exported for other properties)
+
+// c17HaltPrintAs checks, under the given rule id, how Interp.Main prints the value of a halt:
+// nil prints nothing, a Go string (decided by a direct comma-ok type assertion on the value) is
+// written raw, everything else goes through gojq.Marshal followed by "\n" — the jq CLI rule.
+func c17HaltPrintAs(r *fw.Run, p *fw.Program, ruleID string) {
+	ru := r.Rule(ruleID, "Interp.Main prints a halt value the jq way: nil -> nothing; a Go string (direct `v.(string)` comma-ok assertion on HaltError.Value()) -> raw bytes; anything else -> gojq.Marshal(v) then \"\\n\"; all to stderr", 5)
+	c17HaltPrint(ru, p)
+}
+
+func c17HaltPrint(ru *fw.Rule, p *fw.Program) {
+	mainM := p.Fn("(*pkg/interp.Interp).Main")
+	if mainM == nil {
+		ru.Undecided("halt-print:anchor", "", "(*interp.Interp).Main not found")
+		return
+	}
+	pos := p.Rel(mainM.Pos())
+	var asCall, valCall *ssa.Call
+	for _, c := range fw.CallsIn(mainM) {
+		cl, ok := c.(*ssa.Call)
+		if !ok {
+			continue
+		}
+		f := cl.Common().StaticCallee()
+		if f == nil {
+			continue
+		}
+		switch {
+		case f.String() == "errors.As" && len(cl.Common().Args) == 2:
+			if mi, ok := cl.Common().Args[1].(*ssa.MakeInterface); ok {
+				if pt, ok := mi.X.Type().Underlying().(*types.Pointer); ok {
+					if pt2, ok := pt.Elem().Underlying().(*types.Pointer); ok {
+						if n, ok := pt2.Elem().(*types.Named); ok && n.Obj().Name() == "HaltError" {
+							asCall = cl
+						}
+					}
+				}
+			}
+		case f.Name() == "Value" && f.Signature.Recv() != nil && strings.HasSuffix(f.Signature.Recv().Type().String(), "gojq.HaltError"):
+			valCall = cl
+		}
+	}
+	if asCall == nil || valCall == nil {
+		ru.Undecided("halt-print:anchor", pos, "errors.As(.., **gojq.HaltError) or (*gojq.HaltError).Value() call not found in Interp.Main")
+		return
+	}
+	V := ssa.Value(valCall)
+	// nil test
+	var nonNil *ssa.BinOp
+	for _, ref := range *V.Referrers() {
+		if bo, ok := ref.(*ssa.BinOp); ok && bo.Op == token.NEQ && ((bo.X == V && isNilConst(bo.Y)) || (bo.Y == V && isNilConst(bo.X))) {
+			nonNil = bo
+		}
+	}
+	// string test: direct comma-ok assertion on V
+	var strTA *ssa.TypeAssert
+	for _, ref := range *V.Referrers() {
+		if ta, ok := ref.(*ssa.TypeAssert); ok && ta.CommaOk && ta.X == V {
+			if b, ok := ta.AssertedType.(*types.Basic); ok && b.Kind() == types.String {
+				strTA = ta
+			}
+		}
+	}
+	if strTA == nil {
+		ru.Fail("halt-print:string-test", pos, "whether the halt value is printed raw is not decided by a direct `v.(string)` assertion on HaltError.Value(): a conversion helper also turns numbers, byte arrays or decode values into raw output where jq prints JSON")
+	} else {
+		ru.Ok("halt-print:string-test", p.Rel(strTA.Pos()), "direct comma-ok assertion to string")
+	}
+	var strOK, strVal ssa.Value
+	if strTA != nil {
+		strOK, strVal = c17Extract(strTA, 1), c17Extract(strTA, 0)
+	}
+	nRaw, nJSON, nNL := 0, 0, 0
+	for _, c := range fw.CallsIn(mainM) {
+		cc := c.Common()
+		if !cc.IsInvoke() || cc.Method.Name() != "Write" || c17GuardOf(c.Block(), asCall) != 1 || len(cc.Args) != 1 {
+			continue
+		}
+		wp := p.Rel(c.Pos())
+		if nonNil == nil || c17GuardOf(c.Block(), nonNil) != 1 {
+			ru.Fail("halt-print:nil-silent", wp, "something is written for a halt without a value being known non-nil (`null | halt_error` must print nothing)")
+			continue
+		}
+		arg := cc.Args[0]
+		isStr := 0
+		if strOK != nil {
+			isStr = c17GuardOf(c.Block(), strOK)
+		}
+		switch {
+		case isStr == 1:
+			cv, ok := arg.(*ssa.Convert)
+			if ok && strVal != nil && cv.X == strVal {
+				nRaw++
+				ru.Ok("halt-print:raw-string", wp, "string written raw")
+			} else {
+				ru.Fail("halt-print:raw-string", wp, "for a string halt value something else than the string's bytes is written")
+			}
+		case isStr == -1 || strOK == nil:
+			if ex, ok := arg.(*ssa.Extract); ok && ex.Index == 0 {
+				if mc, ok := ex.Tuple.(*ssa.Call); ok && mc.Common().StaticCallee() != nil && mc.Common().StaticCallee().Name() == "Marshal" &&
+					strings.HasSuffix(fw.FnPkgPath(mc.Common().StaticCallee()), "/gojq") && len(mc.Common().Args) == 1 && mc.Common().Args[0] == V {
+					nJSON++
+					ru.Ok("halt-print:json", wp, "gojq.Marshal(value)")
+					continue
+				}
+			}
+			if c17IsNewlineSlice(arg) {
+				nNL++
+				ru.Ok("halt-print:newline", wp, "\"\\n\" after the JSON text")
+				continue
+			}
+			if strOK == nil {
+				continue // already reported by string-test
+			}
+			ru.Fail("halt-print:json", wp, "for a non-string halt value something else than gojq.Marshal(value) or the final newline is written")
+		default:
+			ru.Undecided("halt-print:write", wp, "write not classified by the string test")
+		}
+	}
+	if strTA != nil {
+		ru.Check(nRaw == 1, "halt-print:has-raw", pos, "string branch writes once", fmt.Sprintf("%d raw writes for a string halt value, expected 1", nRaw))
+		ru.Check(nJSON == 1 && nNL == 1, "halt-print:has-json-nl", pos, "JSON then newline", fmt.Sprintf("non-string halt value: %d JSON writes and %d newline writes, expected 1 and 1", nJSON, nNL))
+	}
+}
+
+// c17IsNewlineSlice: v is []byte{'\n'} (slice of a one element array holding 10).
+func c17IsNewlineSlice(v ssa.Value) bool {
+	sl, ok := v.(*ssa.Slice)
+	if !ok {
+		return false
+	}
+	al, ok := sl.X.(*ssa.Alloc)
+	if !ok {
+		return false
+	}
+	pt, ok := al.Type().Underlying().(*types.Pointer)
+	if !ok {
+		return false
+	}
+	arr, ok := pt.Elem().Underlying().(*types.Array)
+	if !ok || arr.Len() != 1 {
+		return false
+	}
+	found := false
+	for _, ref := range *al.Referrers() {
+		if ia, ok := ref.(*ssa.IndexAddr); ok {
+			for _, r2 := range *ia.Referrers() {
+				if st, ok := r2.(*ssa.Store); ok {
+					if k, ok := c17ConstInt(st.Val); ok && k == 10 {
+						found = true
+					} else {
+						return false
+					}
+				}
+			}
+		}
+	}
+	return found
 }
